@@ -385,6 +385,93 @@ def percolate_cases():
 
 
 # ---------------------------------------------------------------------------
+# (f) exact law of discrete_SIR with a user recovery rule (nodes infectious for several steps) and the default Bernoulli(p) contacts
+# ---------------------------------------------------------------------------
+
+def recovery_law_cases(quick):
+    for n in (2, 3):
+        for edges in gen.all_graphs(n):
+            if not edges:
+                continue
+            for durs in ([2, 1, 3], [3, 2, 1]):
+                for p in ((0.5,) if quick else (0.3, 0.5)):
+                    for seed_node in range(n if not quick else 1):
+                        yield {'n': n, 'edges': edges, 'durs': durs[:n], 'p': p, 'I0': [seed_node], 'tmin': 0}
+
+
+def recovery_law_oracle(n, adj, durs, p, I0):
+    """law over count trajectories ((S,I,R) per step) of the multi-step Reed-Frost chain: an infectious node exposes each susceptible
+    neighbour independently with probability p in EVERY step of its infectious period"""
+    start = tuple(('I', durs[u]) if u in I0 else ('S', 0) for u in range(n))
+
+    def counts(st_):
+        return (sum(1 for s, _ in st_ if s == 'S'), sum(1 for s, _ in st_ if s == 'I'), sum(1 for s, _ in st_ if s == 'R'))
+    paths = {((counts(start),), start): 1.0}
+    done = {}
+    for _step in range(40):
+        nxt = {}
+        for (traj, st_), pr in paths.items():
+            inf = [u for u in range(n) if st_[u][0] == 'I']
+            if not inf:
+                done[traj] = done.get(traj, 0.0) + pr
+                continue
+            sus = [u for u in range(n) if st_[u][0] == 'S']
+            probs = [1.0 - (1.0 - p) ** sum(1 for u in inf if v in adj[u]) for v in sus]
+            for bits in itertools.product((0, 1), repeat=len(sus)):
+                q = 1.0
+                for b, pv in zip(bits, probs):
+                    q *= pv if b else (1.0 - pv)
+                if q <= 0:
+                    continue
+                new = list(st_)
+                for u in inf:
+                    k = st_[u][1] - 1
+                    new[u] = ('I', k) if k > 0 else ('R', 0)
+                for b, v in zip(bits, sus):
+                    if b:
+                        new[v] = ('I', durs[v])
+                new = tuple(new)
+                key = (traj + (counts(new),), new)
+                nxt[key] = nxt.get(key, 0.0) + pr * q
+        paths = nxt
+        if not paths:
+            break
+    return done
+
+
+def recovery_law_check(case):
+    import EoN
+    import networkx as nx
+    n = case['n']
+    G = nx.Graph()
+    G.add_nodes_from(range(n))
+    G.add_edges_from(case['edges'])
+    adj = {u: set(G.neighbors(u)) for u in range(n)}
+    want = recovery_law_oracle(n, adj, case['durs'], case['p'], case['I0'])
+
+    def call():
+        asked = {}
+
+        def test_recovery(u):
+            asked[u] = asked.get(u, 0) + 1
+            return asked[u] >= case['durs'][u]
+        out = EoN.discrete_SIR(G, args=(case['p'],), test_recovery=test_recovery, initial_infecteds=list(case['I0']), tmin=case['tmin'])
+        return tuple(zip(*[[int(x) for x in col] for col in out[1:]]))
+    fails = []
+    leaves = forkrng.enumerate_paths(lambda rng: call(), max_leaves=400000, max_forks=400)
+    bad = [lf for lf in leaves if lf.kind != 'done']
+    if bad:
+        return Result([Failure('discrete_SIR:recovery-rule-law:%s' % bad[0].kind, 'run did not complete normally: %r' % (bad[0].out,))])
+    got, mass = forkrng.law(leaves, lambda lf: lf.out)
+    for traj in set(got) | set(want):
+        if abs(got.get(traj, 0.0) - want.get(traj, 0.0)) > TOL:
+            fails.append(Failure('discrete_SIR:recovery-rule-law', 'infectious periods %r steps, p=%r, edges %r, seed %r: P(count trajectory %r) = %.12g, multi-step Reed-Frost gives %.12g'
+                                 % (case['durs'], case['p'], case['edges'], case['I0'], traj, got.get(traj, 0.0), want.get(traj, 0.0))))
+            break
+    return Result(fails, nontrivial=len(case['edges']) >= 1, classes=['recovery-rule-law'])
+
+
+# ---------------------------------------------------------------------------
 # (d) long deterministic chains with the documented defaults; (e) percolation of large graphs
 # ---------------------------------------------------------------------------
 
@@ -486,6 +573,8 @@ def prop_big_percolate(case):
 
 
 def replay(ctx, sub, case):
+    if sub == 'recovery-law':
+        return recovery_law_check(case).failures
     if sub == 'long-chain':
         return prop_chain(case).failures
     if sub == 'percolate-large':
@@ -543,6 +632,8 @@ def run(ctx):
         run_hypothesis(ctx, 'law-n4', law_case_n4(), law_case_check, 300)
     if not only or 'percolate' in only:
         run_cases(ctx, 'percolate', percolate_cases(), percolate_check)
+    if not only or 'recovery-law' in only:
+        run_cases(ctx, 'recovery-law', recovery_law_cases(quick), recovery_law_check)
     if not only or 'percolate-large' in only:
         run_cases(ctx, 'percolate-large', big_percolate_cases(ctx.seed, quick), prop_big_percolate)
     if not only or 'long-chain' in only:
